@@ -38,7 +38,7 @@ def run(ctx):
         vlib.violation(ctx, "catalogue-" + c["pkg"], dict(semlib.replay_of(cmd, c), kind="a construct of the catalogue is translated to GooseLang that does not compute what Go computes"), True)
         found = True
     # generated packages
-    plan = [("default", 30), ("core", 20)] if quick else [("default", 500), ("core", 300), ("noshadow", 200)]
+    plan = [("default", 24), ("core", 12), ("minigo", 12)] if quick else [("default", 500), ("core", 300), ("minigo", 300), ("noshadow", 200)]
     evals = calls = 0
     samples = []
     for i, (profile, n) in enumerate(plan):
